@@ -4,6 +4,7 @@ import NA.Proofs.C03Members
 import NA.Proofs.C03Groups
 import NA.Proofs.C03Marks
 import NA.Model.PanOsOld
+import NA.Proofs.C03Device
 /-!
 # C03 — PAN-OS approve converges to the Netspoc-equivalent rulebase
 (with the PAN-OS theorems of C07, C08, C10; names prefixed `pan_`)
@@ -496,6 +497,218 @@ example : (mixDev.addrs.map (·.name)).Nodup ∧ (∀ g ∈ mixTgt.groups, g.nam
 example : (match planDevice idDiff "d" "d" [sgDev] [sgTgt] with
     | .ok l => l.map (·.1) == ["v"] | .error _ => false) = true := by decide
 
+
+/-! ## Round 3: whole-vsys and whole-device theorems
+
+The per-part results above are composed here into statements about a whole vsys and a whole
+device, for every device vsys `a`, every target `b` and every valid normalised differ — on the
+fragment `PlainPair sh a b` (decidable): no address-groups and no service-groups on either side,
+names are keys, no member twice in a source / destination list, every name a target rule uses is
+`any` / `application-default`, shared, or defined by the target, and the device vsys defines no
+object under a reserved or shared name.  Numbers of rules, members, objects, vsys are unbounded;
+the rule script is any valid normalised script (including the nothing-in-common script).
+
+The FULL statements (for every `wellFormed` pair, groups included) are false of the unchanged
+planner — `pan_sgroup_set_merges_counterexample` (F-C03a) refutes convergence and executability,
+`pan_mixed_list_not_idempotent_counterexample` (F-C03e) refutes idempotence — so the theorems
+carry the suffix `_partial`; for pairs with address-groups outside those two findings the whole
+statement rests on the per-part theorems above and on the oracle. -/
+
+/-- Identity when the two sides are equal position by position, else delete all / insert all:
+a differ that is both `GoodDiffer` and `IdentityDiffer`. -/
+def stdDiff : Differ := fun n m eq =>
+  if n = m ∧ pairsEq eq 0 0 n = true then [⟨0, n, 0, n⟩] else trivialDiff n m eq
+
+theorem pairsEq_of_diag (eq : Nat → Nat → Bool) : ∀ (k a : Nat), (∀ i, a ≤ i → i < a + k → eq i i = true) →
+    pairsEq eq a a k = true := by
+  intro k
+  induction k with
+  | zero => intro a _; rfl
+  | succ k ih =>
+    intro a h
+    simp only [pairsEq, Bool.and_eq_true]
+    exact ⟨h a (Nat.le_refl _) (by omega), ih (a + 1) (fun i h1 h2 => h i (by omega) (by omega))⟩
+
+theorem stdDiff_good : GoodDiffer stdDiff := by
+  intro n m eq
+  unfold stdDiff
+  split
+  · rename_i h
+    obtain ⟨rfl, hp⟩ := h
+    simp [validScript, validFrom, normalised, hp]
+  · exact trivialDiff_good n m eq
+
+theorem stdDiff_identity : IdentityDiffer stdDiff := by
+  intro n eq h
+  unfold stdDiff
+  rw [if_pos ⟨rfl, pairsEq_of_diag eq n 0 (fun i _ hi => h i (by omega))⟩]
+
+/-- **`panos_vsys_converges`** on the group-free fragment.  The strict device accepts every
+request of the plan, and the vsys it reaches has the target's rules in the target's order —
+header equal, source / destination / service the same sets, objects compared by content
+(`equiv`).  (Full statement, false because of F-C03a:
+`wellFormed sh a → wellFormed sh b → ∃ w, Runs sh a (planVsys diff a b) w ∧ equiv w b`.) -/
+theorem panos_vsys_converges_partial (sh : Shared) (diff : Differ) (hd : GoodDiffer diff) (a b : Vsys)
+    (hP : PlainPair sh a b) :
+    ∃ w, execAll sh a (planVsys diff a b) = (w, (planVsys diff a b).length, none) ∧ equiv w b = true ∧
+      w.name = a.name ∧ w.rules.length = b.rules.length ∧ (ruleNames w.rules).Nodup ∧
+      (∀ (t : Nat) (r : Rule), w.rules[t]? = some r → RuleLike r (b.rules.getD t default)) := by
+  obtain ⟨w, h1, h2, _, _, h5, h6, h7, h8⟩ := plain_converges sh diff hd a b hP
+  exact ⟨w, h1, h2, h5, h6, h7, h8⟩
+
+/-- **`panos_executable`** (C08) on the group-free fragment.  Every request of the plan is
+accepted by the strict device in the state the preceding requests produce — that device refuses
+`set` / `edit` of a rule or member list naming an object that does not exist at that moment,
+`delete` of an object something still refers to, `move` before a rule that is not there, `set`
+of a rule whose name is taken.  Said for every cut: the first `k` requests are accepted without
+refusal, whatever `k`.  (Full statement false because of F-C03a.) -/
+theorem panos_executable_partial (sh : Shared) (diff : Differ) (hd : GoodDiffer diff) (a b : Vsys)
+    (hP : PlainPair sh a b) (k : Nat) :
+    (execAll sh a ((planVsys diff a b).take k)).2 = (min k (planVsys diff a b).length, none) := by
+  obtain ⟨w, h1, _⟩ := plain_converges sh diff hd a b hP
+  have hsplit : planVsys diff a b = (planVsys diff a b).take k ++ (planVsys diff a b).drop k :=
+    (List.take_append_drop k _).symm
+  have h1' : Runs sh a ((planVsys diff a b).take k ++ (planVsys diff a b).drop k) w := by
+    rw [← hsplit]; exact h1
+  obtain ⟨ak, h2, _⟩ := Runs.of_append _ _ _ _ h1'
+  unfold Runs at h2
+  rw [h2, List.length_take]
+
+/-- **`panos_unchanged_only_if_equivalent`** on the group-free fragment: an empty plan ("device
+unchanged") is only reported for a device that is equivalent to the target. -/
+theorem panos_unchanged_only_if_equivalent_partial (sh : Shared) (diff : Differ) (hd : GoodDiffer diff)
+    (a b : Vsys) (hP : PlainPair sh a b) (h : planVsys diff a b = []) : equiv a b = true := by
+  obtain ⟨w, h1, h2, _⟩ := plain_converges sh diff hd a b hP
+  rw [h] at h1
+  rw [runs_nil_eq h1] at h2
+  exact h2
+
+/-- **`panos_idempotent`** on the group-free fragment: for the device reached by executing the
+plan, the next plan is empty (second compare: no change).  Needs a differ that returns the
+identity script for two sides equal position by position (`IdentityDiffer`; checked for the real
+`myers.Diff` on every such call the harness observes), a target that defines no object under a
+reserved or shared name, and service lists without repetition.  (Full statement false because
+of F-C03e.) -/
+theorem panos_idempotent_partial (sh : Shared) (diff : Differ) (hd : GoodDiffer diff)
+    (hid : IdentityDiffer diff) (a b : Vsys) (hP : PlainPair sh a b) (hN : TgtNames sh b)
+    (hsa : SrvNodup a) (hsb : SrvNodup b) :
+    ∃ w, execAll sh a (planVsys diff a b) = (w, (planVsys diff a b).length, none) ∧
+      planVsys diff w b = [] :=
+  let ⟨w, h1, _, h3⟩ := plain_idempotent sh diff hd hid a b hP hN hsa hsb
+  ⟨w, h1, h3⟩
+
+/-- **A device that already says what the target says gets an empty plan** (same rules at the
+same positions, every object a target rule uses present with the target's value, no other
+object): the fixpoint statement `panos_idempotent_partial` rests on. -/
+theorem panos_settled_plan_empty_partial (sh : Shared) (diff : Differ) (hd : GoodDiffer diff)
+    (hid : IdentityDiffer diff) (w b : Vsys) (hP : PlainPair sh w b) (hS : Settled w b) :
+    planVsys diff w b = [] :=
+  plain_fixpoint sh diff hd hid w b hP hS
+
+/-- **`panos_resume`** (C10) on the group-free fragment.  Execute any prefix of the plan (the
+device accepts it), plan again from the state reached, execute that plan: every request is
+accepted and the result is equivalent to the target.  (Needs `TgtNames`: the target defines no
+object under a reserved or shared name.  Full statement false because of F-C03a.) -/
+theorem panos_resume_partial (sh : Shared) (diff : Differ) (hd : GoodDiffer diff) (a b : Vsys)
+    (hP : PlainPair sh a b) (hN : TgtNames sh b) (k : Nat) :
+    ∃ ak w, execAll sh a ((planVsys diff a b).take k) = (ak, ((planVsys diff a b).take k).length, none) ∧
+      execAll sh ak (planVsys diff ak b) = (w, (planVsys diff ak b).length, none) ∧
+      equiv w b = true :=
+  plain_resume sh diff hd a b hP hN k
+
+/-- **`panos_outside_vsys_untouched`** (C07), for every device, every target, every differ, no
+side condition.  Execute the plan of `GetChanges` — or any part of it, any cut, in any order
+(`l'` only has to address vsys the plan addresses) — on the device: no vsys is added or removed,
+and every vsys the target does not name is exactly what it was. -/
+theorem panos_outside_vsys_untouched (sh : Shared) (diff : Differ) (devA devB : String) (dev tgt : List Vsys)
+    (l l' : List (String × List Cmd)) (hplan : planDevice diff devA devB dev tgt = .ok l)
+    (hsub : ∀ p ∈ l', ∃ q ∈ l, q.1 = p.1) (d' : Device) (hx : execDevAll sh dev l' = .ok d') :
+    d'.length = dev.length ∧
+      ∀ (i : Nat) (v : Vsys), dev[i]? = some v → (∀ t ∈ tgt, t.name ≠ v.name) → d'[i]? = some v := by
+  obtain ⟨h1, h2⟩ := execDevAll_frame l' dev d' hx
+  refine ⟨h1, fun i v hi hne => h2 i v hi ?_⟩
+  intro p hp e
+  obtain ⟨q, hq, hqe⟩ := hsub p hp
+  obtain ⟨_, ⟨t, ht, htn⟩⟩ := pan_scope diff devA devB dev tgt l hplan q hq
+  exact hne t ht (htn.trans (hqe.trans e))
+
+/-- **Several vsys.**  On a device whose vsys names are distinct, if every (device vsys, target
+vsys) pair is in the group-free fragment, the strict device accepts the whole plan of
+`GetChanges`; afterwards every vsys the target names is equivalent to its target and every
+other vsys is what it was. -/
+theorem panos_device_converges_partial (sh : Shared) (diff : Differ) (hd : GoodDiffer diff)
+    (devA devB : String) (dev tgt : List Vsys) (l : List (String × List Cmd))
+    (hplan : planDevice diff devA devB dev tgt = .ok l) (hnd : (dev.map (·.name)).Nodup)
+    (hP : ∀ v1 ∈ dev, ∀ v2, vsysMap tgt v1.name = some v2 → PlainPair sh v1 v2) :
+    ∃ d', execDevAll sh dev l = .ok d' ∧ d'.length = dev.length ∧
+      ∀ (i : Nat) (v1 : Vsys), dev[i]? = some v1 →
+        (vsysMap tgt v1.name = none → d'[i]? = some v1) ∧
+        (∀ v2, vsysMap tgt v1.name = some v2 → ∃ w, d'[i]? = some w ∧ equiv w v2 = true) := by
+  obtain ⟨d', e1, e2, e3⟩ := execDevAll_planDevice sh diff devA devB dev tgt l hplan hnd
+    (fun v1 hv1 v2 hv2 => by
+      obtain ⟨w, hw, _⟩ := plain_converges sh diff hd v1 v2 (hP v1 hv1 v2 hv2)
+      exact ⟨w, hw⟩)
+  refine ⟨d', e1, e2, fun i v1 hi => ⟨(e3 i v1 hi).1, fun v2 hv2 => ?_⟩⟩
+  obtain ⟨w, hw1, hw2⟩ := (e3 i v1 hi).2 v2 hv2
+  obtain ⟨w', hw', heq, _⟩ := plain_converges sh diff hd v1 v2 (hP v1 (List.mem_of_getElem? hi) v2 hv2)
+  have : w = w' := by
+    unfold Runs at hw2 hw'
+    rw [hw2] at hw'
+    exact (Prod.mk.inj hw').1
+  subst this
+  exact ⟨w, hw1, heq⟩
+
+/-! ### Non-vacuity of the round-3 hypotheses, on a pair that exercises every phase -/
+
+/-- device: two rules, an address and a service the target no longer uses -/
+def plainDev : Vsys :=
+  mkVsys [mkRule "r1" ["a1", "a2"] "s1", mkRule "r2" ["a2"] "s1"] ["a1", "a2"] [] ["s1"]
+/-- target: r1 with another source list and service, a new rule in front, new objects -/
+def plainTgt : Vsys :=
+  mkVsys [mkRule "r0" ["a3"] "s2", mkRule "r1" ["a1", "a3"] "s2"] ["a1", "a3"] [] ["s2"]
+
+example : GoodDiffer stdDiff ∧ IdentityDiffer stdDiff := ⟨stdDiff_good, stdDiff_identity⟩
+example : PlainPair ["shared-1"] plainDev plainTgt := by decide
+example : TgtNames ["shared-1"] plainTgt := by decide
+example : SrvNodup plainDev ∧ SrvNodup plainTgt := by decide
+/-- nothing in common (the services differ): transfers, deletes, new rules under fresh names, removals -/
+example : planVsys stdDiff plainDev plainTgt =
+    [.setAddr "a3" "a3", .setSvc "s2" "s2", .delRule "r1", .delRule "r2",
+     .setRule (mkRule "r0" ["a3"] "s2"), .setRule (mkRule "r1-1" ["a1", "a3"] "s2"),
+     .delAddr "a2", .delSvc "s1"] := by decide
+example : (execAll ["shared-1"] plainDev (planVsys stdDiff plainDev plainTgt)).2 = (8, none) ∧
+    planVsys stdDiff (execAll ["shared-1"] plainDev (planVsys stdDiff plainDev plainTgt)).1 plainTgt = [] := by
+  decide
+/-- rules paired one by one: a member list replaced inside an equal range -/
+def plainTgt2 : Vsys :=
+  mkVsys [mkRule "r1" ["a1", "a3"] "s1", mkRule "r2" ["a2"] "s1"] ["a1", "a2", "a3"] [] ["s1"]
+example : PlainPair [] plainDev plainTgt2 ∧ TgtNames [] plainTgt2 := by decide
+example : planVsys stdDiff plainDev plainTgt2 =
+    [.setAddr "a3" "a3", .editList "r1" .src ["a1", "a3"]] ∧
+    planVsys stdDiff (execAll [] plainDev (planVsys stdDiff plainDev plainTgt2)).1 plainTgt2 = [] := by decide
+/-- a settled device -/
+example : Settled plainTgt plainTgt :=
+  ⟨rfl, fun _ _ => ⟨rfl, fun _ => Iff.rfl, fun _ => Iff.rfl, fun _ => Iff.rfl⟩, by decide, by decide,
+    fun _ _ _ => rfl, (by unfold RefAddr; decide), fun _ _ _ => rfl, (by unfold RefSvc; decide)⟩
+/-- a device with two vsys of which the target names one -/
+example : (match planDevice stdDiff "d" "d" [plainDev, { plainDev with name := "w" }] [plainTgt] with
+    | .ok l => l.map (·.1) == ["v"] | .error _ => false) = true ∧
+    ([plainDev, { plainDev with name := "w" }].map (·.name)).Nodup := by decide
+
+/-- the per-pair hypothesis of `panos_device_converges_partial` on that device -/
+example : ∀ v1 ∈ [plainDev, { plainDev with name := "w" }], ∀ v2,
+    vsysMap [plainTgt] v1.name = some v2 → PlainPair [] v1 v2 := by
+  intro v1 hv1 v2 h
+  simp only [List.mem_cons, List.not_mem_nil, or_false] at hv1
+  rcases hv1 with rfl | rfl
+  · have : vsysMap [plainTgt] plainDev.name = some plainTgt := by decide
+    rw [this] at h
+    cases h
+    decide
+  · have : vsysMap [plainTgt] ({ plainDev with name := "w" } : Vsys).name = none := by decide
+    rw [this] at h
+    cases h
+
 def obligations : List Lean.Name := [
   ``pan_rules_converge, ``pan_rules_converge_on_device, ``pan_members_converge, ``pan_group_members_converge,
   ``pan_group_reuse_sound, ``pan_uniq_names, ``pan_uniq_names_counterexample,
@@ -505,6 +718,10 @@ def obligations : List Lean.Name := [
   ``pan_group_transfer_cancelled_counterexample, ``pan_group_transfer_repaired,
   ``pan_inserted_group_name_counterexample, ``pan_inserted_group_name_repaired,
   ``pan_generated_rule_name_counterexample,
-  ``trivialDiff_good, ``suffixInj]
+  ``trivialDiff_good, ``suffixInj,
+  ``panos_vsys_converges_partial, ``panos_executable_partial, ``panos_unchanged_only_if_equivalent_partial,
+  ``panos_idempotent_partial, ``panos_settled_plan_empty_partial, ``panos_resume_partial,
+  ``panos_outside_vsys_untouched, ``panos_device_converges_partial, ``stdDiff_good, ``stdDiff_identity,
+  ``sortStrings_canonical]
 
 end NA.PanOs
